@@ -196,7 +196,7 @@ def _body(fname: str, outputs: tuple, internal, kw: dict, none_mod=None, as_dict
             arr = np.empty(tuple(internal), dtype=object)
             for t in itertools.product(*[range(d) for d in internal]):
                 arr[t] = f"{tag}<{','.join(map(str, t))}>"
-            return arr.tolist() if as_list else arr
+            return (tuple(arr.tolist()) if as_list == "tuple" else arr.tolist()) if as_list else arr
         return tag
     if len(outputs) == 1:
         return None if returns_none(s, none_mod) else one(s)
@@ -210,7 +210,7 @@ def make_callable(f: dict):
     params = list(f["params"])
     sig = ", ".join(params)
     kw = ", ".join(f"{p}={p}" for p in params)
-    src = f"def {f['name']}({sig}):\n    from rtc.progs import _body\n    return _body({f['name']!r}, {tuple(f['outputs'])!r}, {f.get('internal')!r}, dict({kw}), {f.get('none_mod')!r}, {bool(f.get('picker'))!r}, {bool(f.get('as_list'))!r})\n"
+    src = f"def {f['name']}({sig}):\n    from rtc.progs import _body\n    return _body({f['name']!r}, {tuple(f['outputs'])!r}, {f.get('internal')!r}, dict({kw}), {f.get('none_mod')!r}, {bool(f.get('picker'))!r}, {f.get('as_list') or False!r})\n"
     ns: dict = {}
     exec(src, ns)  # noqa: S102
     fn = ns[f["name"]]
@@ -271,7 +271,7 @@ def _get(nested, key):
 
 def _shape_of(nested) -> tuple:
     shp = []
-    while isinstance(nested, list):
+    while isinstance(nested, (list, tuple)):
         shp.append(len(nested))
         nested = nested[0] if nested else None
     return tuple(shp)
@@ -298,7 +298,7 @@ def oracle_body(f: dict, kw: dict):
             arr = _empty(tuple(internal))
             for t in itertools.product(*[range(d) for d in internal]):
                 _set(arr, t, f"{tag}<{','.join(map(str, t))}>")
-            return arr
+            return tuple(arr) if f.get("as_list") == "tuple" and len(internal) == 1 else arr
         return tag
     outs = f["outputs"]
     if len(outs) == 1:
@@ -326,7 +326,8 @@ def denote(prog: dict, requested: set | None = None) -> tuple[dict, list]:
                 progressed = True
         if not progressed:
             raise ValueError("program not evaluable (cycle or missing input)")
-    return vals, calls
+    # (a tuple-valued output is compared like a list of its elements; consumers above saw the tuple)
+    return {k: (list(v) if isinstance(v, tuple) else v) for k, v in vals.items()}, calls
 
 
 def _arg(f, p, vals):
@@ -479,9 +480,14 @@ def gen_map_program(rng: random.Random, n_funcs: int = 2, max_rank: int = 2, all
                 funcs.append({"name": name, "params": prm, "outputs": outs, "spec": None,
                               "internal": tuple(sizes[ix] for ix in new_ix), "plain_array": True,
                               # (a nested list cannot be indexed by a tuple key: only 1-d values are also returned as a list)
-                              "as_list": rk == 1 and rng.random() < 0.4})
-                arrays[outs[0]] = tuple(new_ix)
-                plain_arrays.add(outs[0])
+                              "as_list": rk == 1 and rng.choice((False, False, True, "tuple"))})
+                if funcs[-1]["as_list"] == "tuple":
+                    # a tuple is one value, not an array (the library refuses tuples as mapped inputs): later functions
+                    # can only take it whole
+                    produced_plain.append(outs[0])
+                else:
+                    arrays[outs[0]] = tuple(new_ix)
+                    plain_arrays.add(outs[0])
                 continue
         k = rng.randint(1, min(2, len(cands)))
         params = rng.sample(cands, k)
@@ -597,6 +603,6 @@ def describe(prog: dict) -> dict:
                        **({"bound": f["bound"]} if f.get("bound") else {}),
                        **({"none_mod": f["none_mod"]} if f.get("none_mod") else {}),
                        **({"picker": True} if f.get("picker") else {}),
-                       **({"plain_array": True, "as_list": bool(f.get("as_list"))} if f.get("plain_array") else {})}
+                       **({"plain_array": True, "as_list": f.get("as_list") or False} if f.get("plain_array") else {})}
                       for f in prog["funcs"]],
             "inputs": prog["inputs"]}
